@@ -542,7 +542,13 @@ class Case:
 def battery(ctx, G, a, b, as_array, cid, internal=True, heavy=True):
     c = Case(ctx, G, a, b, as_array, cid)
     und = not G.directed
-    for name, (arity, lib, rf, flags) in TABLE.items():
+    # the measures are evaluated on the graph's one library object in a
+    # different order for every group pair: each has to equal its definition
+    # whatever was computed (and cached) on that object before
+    items = list(TABLE.items())
+    ro = ctx.rng("order", cid, len(c.a), len(c.b), int(sum(c.a)))
+    items = [items[i] for i in ro.permutation(len(items))]
+    for name, (arity, lib, rf, flags) in items:
         if arity == 1 and not internal:
             continue
         if G.directed and "d" not in flags:
